@@ -469,7 +469,7 @@ def group0 : Cw4Group.State :=
   | .error _ => Cw4Group.State.empty
 
 def token0 : Cw20.State :=
-  { supply := 0, mint := none, balances := [], allow := [], allowSp := [], version := ⟨"crates.io:cw20-base", 2, 0, 0⟩ }
+  { supply := 0, mint := none, balances := [], allow := [], allowSp := [], version := ⟨"crates.io:cw20-base", 2, 0, 0, none⟩ }
 
 def inst : InstMsg :=
   { group := ⟨true, "grp"⟩, threshold := .absoluteCount 4, maxVotingPeriod := .height 5, executor := none, deposit := none }
